@@ -5,7 +5,8 @@
    are translated on this run from fedjax/core/tree_util.py (gen/Gen_tree_util.v).
    `ls_apply` / `ls_run` are the instances the correspondence check evaluates. *)
 From Coq Require Import ZArith QArith List Permutation Bool.
-From FV Require Import Common.NanQ Common.QVec Common.WMean gen.Gen_tree_util Model.C01_Model Proofs.C01_Proofs.
+From FV Require Import Common.NanQ Common.QVec Common.WMean gen.Gen_tree_util gen.Gen_fed_avg Model.C01_Model Proofs.C01_Proofs
+  Proofs.C01_Gen_Proofs.
 Import ListNotations.
 Local Open Scope Q_scope.
 
@@ -153,6 +154,28 @@ Theorem C01_ls_multi_round_order_independent : forall co so cohorts cohorts' p o
     q =v= q' /\ srv_eq s s' /\ Forall2 (fun dg dg' => Permutation (map fst dg) (map fst dg')) dgs dgs'.
 Proof. exact ls_run_order_independent. Qed.
 
+(* T: the round code of fed_avg.py as it is today.  `Gen_fed_avg.apply` / `client_init` /
+   `client_step` are translated on this run from federated_averaging.apply (+ server_update)
+   and create_train_for_each_client; the translated apply IS the model's round run with the
+   translated client program (so every theorem above is about that code), and the instance
+   the correspondence evaluates is that program with the least-squares gradient and optax.sgd.
+   A client of the model is the code's (client_id, dataset, rng) with dataset = (length, batches). *)
+Theorem C01_source_apply_is_the_model :
+  forall {K U B S OS : Type} (grad_fn : list Q -> B -> U -> list Q) (split : K -> K * U) (copt_init : list Q -> S)
+         (copt_apply : list Q -> S -> list Q -> S * list Q) (sopt : list Q -> OS -> list Q -> OS * list Q)
+         st (clients : list (client (K := K) (B := B))),
+  Gen_fed_avg.apply grad_fn split copt_init copt_apply sopt fst snd st (map as_tuple clients) =
+  option_map (fun r : list Q * OS * list (Z * Q) => ((fst (fst r), snd (fst r)), snd r))
+    (fedavg_apply (Gen_fed_avg.client_init copt_init) (Gen_fed_avg.client_step grad_fn split copt_apply)
+                  (@Gen_fed_avg.f_params K S) sopt st clients).
+Proof. exact (@gen_apply_is_fedavg_apply). Qed.
+
+Theorem C01_evaluated_instance_is_source_apply :
+  forall co srv st (clients : list (client (K := key) (B := list example))),
+  option_map (fun r : list Q * srv_state * list (Z * Q) => ((fst (fst r), snd (fst r)), snd r)) (ls_apply co srv st clients) =
+  Gen_fed_avg.apply batch_grad split_key (fun q => vzero (length q)) (sgd_apply co) srv fst snd st (map as_tuple clients).
+Proof. exact ls_apply_is_gen_apply. Qed.
+
 (* non-vacuity: two clients with 2 and 1 examples, one round, SGD(1/2) clients, SGD(1) server *)
 Example C01_example :
   let co := mkSgd (1 # 2) 0 false in
@@ -179,3 +202,5 @@ Print Assumptions C01_ls_round_is_weighted_mean.
 Print Assumptions C01_empty_round_identity_sgd.
 Print Assumptions C01_ls_multi_round.
 Print Assumptions C01_ls_multi_round_order_independent.
+Print Assumptions C01_source_apply_is_the_model.
+Print Assumptions C01_evaluated_instance_is_source_apply.
